@@ -55,6 +55,14 @@ def run(out, tier, prop):
     behs.append({"src": "f2-reproducer", "steps": [
         {"op": "switch", "t": 1, "r": 1}, {"op": "new", "t": 1, "pk": "root", "p": 1}, {"op": "enter", "t": 1, "s": 1},
         {"op": "switch", "t": 1, "r": 2}, {"op": "drop", "t": 1, "s": 1}, {"op": "exit", "t": 1, "s": 1}]})
+    if prop == "C05":
+        # reference-count race at the granularity of try_close's atomics: the model, its negative control, and real threads
+        r = vlib.require_ok(vlib.tlc(D, "RefCountRace", cfg="RefCountRace", workers=2, timeout=300), "RefCountRace")
+        out.add_tlc(r, "RefCountRace exhaustive: 3 holders releasing the last references concurrently (fetch_sub / decide), AtMostOnce, ExactlyOnceAtEnd")
+        if vlib.tlc(D, "RefCountRace", cfg="RefCountRaceNeg", workers=2, timeout=300).ok:
+            raise vlib.ToolError("negative control: a non-atomic decrement-then-load was not detected by AtMostOnce")
+        for k in (2, 3):
+            behs.append({"src": "racedrop", "mode": "racedrop", "rounds": 60000 if quick else 1000000, "threads": k, "steps": []})
     lines, found = execute(behs, prop.lower())
     judge(out, behs, lines, found, prop)
 
